@@ -18,8 +18,6 @@ listing shows a snapshot of another family, or details of another key's snapshot
 another key's snapshots hold; a snapshot uploads a chunk that was already stored for its family.
 """
 import json
-import multiprocessing as mp
-import os
 
 from ..common import rng_for
 from ..impl import access as A
@@ -65,7 +63,7 @@ def run(out, drv, info):
                        'WF: every stored object is what its name says (damaged / substituted objects are C04)',
                        'a hand-made key file with a plaintext private section is outside "key graphs built by init and add-key" (Lean example in C06.lean)',
                        'CPython, json, cryptography, hashlib — modelled, not verified']
-    n_worlds, n_ops = (72, 10) if quick else (1400, 14)
+    n_worlds, n_ops = (160, 10) if quick else (1400, 14)
     logs = A.run_worlds(out, drv, 'C06', n_worlds, n_ops, 'c06', 'c06')
     for log in logs:
         summarize(out, log)
@@ -73,8 +71,13 @@ def run(out, drv, info):
     r = rng_for(out.seed, 'C06-graphs')
     graphs = A.enumerate_keygraphs(r, depth=2 if quick else 3, extra_random=12 if quick else 150)
     args = [(out.seed, i, 'C06g', g) for i, g in enumerate(graphs)]
-    with mp.get_context('fork').Pool(min(16, os.cpu_count() or 4)) as pool:
-        glogs = pool.map(A.run_keygraph, args, chunksize=2)
+    gres = A.run_tasks(A.run_keygraph, args, 60)
+    glogs = []
+    for a, log in zip(args, gres):
+        if 'unlock' not in log:
+            A.report_unfinished(out, log, {'kind': 'world', 'idx': a[1], 'mode': 'keygraph', 'label': 'C06g', 'seed': out.seed})
+            continue
+        glogs.append(log)
     for log in glogs:
         A.check_world(log, drv, out, 'c06')
         kinds = [x['kind'] for x in log['cfg']['users']]
@@ -94,7 +97,10 @@ def replay(path, drv):
         if rp.get('mode') == 'keygraph':
             print('key-graph case: re-run the check with the same VERIF_SEED; case index', rp['idx'])
             return 2
-        log = A.run_world((rp.get('seed', 0), rp['idx'], rp.get('label', 'C06'), rp.get('n_ops', 10), rp.get('mode', 'c06')))
+        log = A.run_tasks(A.run_world, [(rp.get('seed', 0), rp['idx'], rp.get('label', 'C06'), rp.get('n_ops', 10), rp.get('mode', 'c06'))], 180)[0]   # a child process: a hanging command must not block the replay
+        if 'steps' not in log:
+            print('the world did not finish:', log)
+            return 1
         print('cfg', log['cfg'])
         print('ops', [f'{st["user"]}:{st["kind"]}' + ('!' + st['error'] if st.get('error') else '') for st in log['steps']])
         bad = 0
